@@ -74,6 +74,20 @@ impl Layout {
 const WORD_START: &[u8] = b"abcdefghijklmnopqrstuvwxyzABCDEFGHIJKLMNOPQRSTUVWXYZ_+*/<>=!?$%&";
 const WORD_REST: &[u8] = b"abcdefghijklmnopqrstuvwxyzABCDEFGHIJKLMNOPQRSTUVWXYZ0123456789_+*/<>=!?$%&-";
 
+/// position just after the last character of a token that starts at (line, col); tokens (strings) may span lines
+fn end_of(line: usize, col: usize, text: &str) -> (usize, usize) {
+    let (mut l, mut c) = (line, col);
+    for ch in text.chars() {
+        if ch == '\n' {
+            l += 1;
+            c = 1;
+        } else {
+            c += 1;
+        }
+    }
+    (l, c)
+}
+
 fn gen_leaf_text(rng: &mut Rng) -> (String, &'static str) {
     match rng.below(12) {
         0..=2 => {
@@ -112,6 +126,7 @@ fn gen_leaf_text(rng: &mut Rng) -> (String, &'static str) {
                     }
                     2 => s.push(if q == '"' { '\'' } else { '"' }),
                     3 => s.push_str("( ;"),
+                    4 => s.push('\n'), // strings may span lines: the closing quote can sit left of the opening one
                     _ => s.push(b"abc XYZ019.,:-"[rng.below(14)] as char),
                 }
             }
@@ -182,7 +197,7 @@ impl<'a> Checker<'a> {
                 }
                 let l = s.loc();
                 let want_min0 = (*line, *col);
-                let want_max0 = (*line, *col + text.chars().count());
+                let want_max0 = end_of(*line, *col, text);
                 if *kind == "hash_op" && (l.file.as_str() != "*c15*" || src_location_min(&l) != want_min0 || src_location_max(&l) != want_max0) {
                     // listed finding: a #-prefixed operator takes the location of the primitive table
                     // (or, for an unknown name, a span that excludes the '#')
@@ -190,7 +205,7 @@ impl<'a> Checker<'a> {
                     return;
                 }
                 let want_min = (*line, *col);
-                let want_max = (*line, *col + text.chars().count());
+                let want_max = end_of(*line, *col, text);
                 if l.file.as_str() != "*c15*" || src_location_min(&l) != want_min || src_location_max(&l) != want_max {
                     self.fail("leaf_location_differs_from_token_span", None, json!({"token": text, "kind": kind, "expected": format!("({},{})-({},{})", want_min.0, want_min.1, want_max.0, want_max.1), "got": l.to_string()}));
                 }
